@@ -154,10 +154,22 @@ pub fn c17rows(args: &[String]) {
     let mut full_runs = 0u64;
     for k in 0..(if quick { 6 } else { 40 }) {
         let slices = 1 + k % 3;
-        let slice = [1 << 17, 1 << 16, 4096][k % 3];
+        // "doubled": full 128 KiB blocks whose second half repeats the first (the longest match one block can hold: 65 536 bytes)
+        let doubled = k % 6 == 5;
+        let slice = if doubled { 1 << 17 } else { [1 << 17, 1 << 16, 4096][k % 3] };
         let nblocks = rng.gen_range(2..7);
-        let class = ["text", "mixed", "periodic", "skewed_match", "runs"][k % 5];
-        let data = gen_input(class, slice * nblocks - rng.gen_range(0..slice / 2), &mut rng);
+        let class = if doubled { "doubled" } else { ["text", "mixed", "periodic", "skewed_match", "runs"][k % 5] };
+        let data = if doubled {
+            let mut v: Vec<u8> = Vec::with_capacity(slice * nblocks);
+            for _ in 0..nblocks {
+                let half: Vec<u8> = (0..slice / 2).map(|_| rng.gen()).collect();
+                v.extend_from_slice(&half);
+                v.extend_from_slice(&half);
+            }
+            v
+        } else {
+            gen_input(class, slice * nblocks - rng.gen_range(0..slice / 2), &mut rng)
+        };
         full_runs += 1;
         let d2 = data.clone();
         let r = std::panic::catch_unwind(move || -> Result<(), String> {
@@ -182,7 +194,7 @@ pub fn c17rows(args: &[String]) {
             while pos < d2.len() {
                 let mut space = m.get_next_space();
                 // mixed block lengths: full slices, short ones, and whatever the driver hands out
-                let want = match (k + bi) % 4 { 0 | 1 => slice, 2 => lr.gen_range(1..=slice), _ => (slice / 4).max(1) };
+                let want = if doubled { slice } else { match (k + bi) % 4 { 0 | 1 => slice, 2 => lr.gen_range(1..=slice), _ => (slice / 4).max(1) } };
                 bi += 1;
                 let len = want.min(d2.len() - pos).min(space.len());
                 if len == 0 {
